@@ -9,6 +9,22 @@ CLAIMED = {
    text="Seeded builder-call histories are replayed into the real CircuitBuilder (each under several hash-iteration orders chosen by the simulator) and into an independent reference interpreter; every tagged expression value and the run outcome are compared, satisfying and perturbed inputs. Sampling over programs, not a proof; the hash-order seam and the history-vs-reference-model structure are what the technique contributes.",
    note="Trusts the reference interpreter (sim/src/gprog.rs ref_eval) as the meaning of expressions and p3_field arithmetic. Universes U-KB4, U-BB4 (D=4).",
    technique="deterministic simulation: seeded builder-call histories vs reference model under a seeded hash-order scheduler"),
+ "C03": dict(level="exploration", ref="DESIGN §5 C03",
+   text="The prover node is byzantine: it discards the honest runner and builds a witness assignment that obeys only the emitted operation list (no runner side checks, free MulAdd product slot, free hint outputs). For seeded programs with perturbed inputs the ops-only evaluator decides the emitted relations and the reference interpreter decides the source program on that same assignment; a disagreement is confirmed end to end by proving the forged trace with the real prover and having the real verifier accept it.",
+   note="One candidate assignment per input (search, not a decision procedure for OpsSat). Only confirmed counter-examples are reported. Trusts ref_eval and sim/src/opsat.rs.",
+   technique="deterministic simulation with a byzantine prover: forged witness that satisfies only the emitted ops, real prove + verify"),
+ "C09": dict(level="exploration", ref="DESIGN §5 C09",
+   text="Invariant monitor attached to the compiler node: for every circuit compiled in seeded runs (every connect-aliasing pattern between constants, public/private inputs, hint outputs and ALU outputs; lane/packing swarm; seeded hash order) a bus accountant recomputes creators and readers per witness slot from the final preprocessed columns and checks one creator, balanced multiplicities and no floating operand; cross-checked against the real LogUp bus (an honest proof of a circuit the accountant calls balanced must verify).",
+   note="Accountant covers the primitive tables (Const/Public/ALU 13-column layout); circuits with non-primitive tables are checked through the real bus only (C05/C06 circuits). Known findings are listed in known_findings.json.",
+   technique="deterministic simulation: invariant monitored on every compiled circuit of seeded runs, cross-checked by real proofs"),
+ "C10": dict(level="exploration", ref="DESIGN §5 C10",
+   text="Fault-free control arm of the prover/verifier simulation: seeded satisfiable programs go through build, run, key generation, proving and the commitment-binding verifier node under a configuration swarm (lanes, Horner packing K, minimum height) and seeded hash order; every failing stage is keyed by a structural explanation and minimised.",
+   note="Generator only emits programs whose inputs satisfy them (checked by the reference interpreter). Verifier node = verify_all_tables + equality of preprocessed commitment with the verifier's own compilation.",
+   technique="deterministic simulation: fault-free control arm of the byzantine-prover simulator under configuration swarm and seeded hash order"),
+ "C18": dict(level="exploration", ref="DESIGN §5 C18",
+   text="The only scheduler in this codebase, hash iteration order, is behind a seam (patched foldhash): every corpus item is compiled, key-generated, run and proven under N seeded iteration orders in-process and in M fresh processes with natural hasher randomness; all digests (ops, numbering, maps, preprocessed columns, table order, degrees, commitment, traces, proof bytes) must be equal. A failing item is minimised and replayed from (program, seedA, seedB).",
+   note="rayon is compiled out (thread scheduling not controlled). Global foldhash seed is constant in the simulator build; per-hasher seeds come from the run's stream.",
+   technique="deterministic simulation: seeded scheduler over hash-iteration orders + fresh-process replays, digest equality"),
 }
 
 NOT_YET = {}
